@@ -335,14 +335,14 @@ theorem mono_goAwayFirst (s : State) (code : Nat) (d : Bytes) (h : s.tstate ≠ 
   unfold State.goAwayFirst; splits
   all_goals (constructor <;> simp_all [SMono.refl, RMono.refl])
 
-theorem mono_goAwayKill (s : State) (id up : Nat) : Mono s (s.goAwayKill id up) := by
+theorem mono_goAwayKill (s : State) (id up : Nat) : Mono s (s.goAwayKill id up).1 := by
   unfold State.goAwayKill
   splits
   all_goals first
     | mono_leaf
     | (refine Mono.trans ?_ (mono_closeVictims ..); refine Mono.trans ?_ (mono_markVictims ..); mono_leaf)
 
-theorem mono_handleGoAway (s : State) (id code : Nat) (d : Bytes) : Mono s (s.handleGoAway id code d) := by
+theorem mono_handleGoAway (s : State) (id code : Nat) (d : Bytes) : Mono s (s.handleGoAway id code d).1 := by
   unfold State.handleGoAway
   splits
   all_goals first
@@ -378,7 +378,9 @@ theorem mono_onFrame (s : State) (f : Frame) : Mono s (s.onFrame f) := by
     · split
       · exact Mono.refl _
       · exact mono_put ..
-    · exact mono_handleGoAway ..
+    · split
+      · exact (mono_handleGoAway ..).trans (mono_readerExit ..)
+      · exact mono_handleGoAway ..
     · exact mono_put ..
     · exact Mono.refl _
     · split
